@@ -117,6 +117,12 @@ def handleTri (inp out : List String) : String :=
 
 def handle (op : String) (inp out : List String) : Option String :=
   match op with
+  -- single-precision operands: the robust kernel widens them exactly, the same exact model applies;
+  -- `notf32`: after a variant rewrite some coordinate is no longer an f32
+  | "C03.orient32" => some (if out == ["notf32"] then skip "not-f32" else handleOrient inp out)
+  | "C03.seg32" => some (if out == ["notf32"] then skip "not-f32" else handleSeg inp out)
+  | "C03.ring32" => some (if out == ["notf32"] then skip "not-f32" else handleRing inp out)
+  | "C03.tri32" => some (if out == ["notf32"] then skip "not-f32" else handleTri inp out)
   | "C03.orient" => some (handleOrient inp out)
   | "C03.orienti" => some (handleOrientI inp out)
   | "C03.seg" => some (handleSeg inp out)
